@@ -1,6 +1,7 @@
 package main
 
 import (
+	"fmt"
 	"go/constant"
 	"go/token"
 	"go/types"
@@ -716,34 +717,151 @@ func freeVarBinding(fv *ssa.FreeVar) ssa.Value {
 // with jump threading (a block entered through an edge on which the phi it branches on is a constant
 // is left through the decided successor only). visit(x) returns true to continue past x.
 func forwardFrom(from *ssa.BasicBlock, visit func(x *ssa.BasicBlock) bool) {
+	forwardFromEdge(from, nil, visit)
+}
+
+// forwardFromEdge: same, starting with the single edge from->only (all successors when only is nil).
+func forwardFromEdge(from, only *ssa.BasicBlock, visit func(x *ssa.BasicBlock) bool) {
+	// state: block, successor forced by the entering edge, and through which predecessor the most
+	// recent join blocks (that define a branch-relevant phi) were entered
+	type join struct {
+		b    *ssa.BasicBlock
+		pidx int
+	}
 	type st struct {
 		b      *ssa.BasicBlock
 		forced int
+		env    string
+	}
+	type item struct {
+		st
+		joins []join
 	}
 	seen := map[st]bool{}
-	var stack []st
-	push := func(pred *ssa.BasicBlock, forced int) {
+	var stack []item
+	envKey := func(js []join) string {
+		k := ""
+		for _, j := range js {
+			k += fmt.Sprintf("%d:%d,", j.b.Index, j.pidx)
+		}
+		return k
+	}
+	hasBranchPhi := func(b *ssa.BasicBlock) bool {
+		for _, in := range b.Instrs {
+			ph, ok := in.(*ssa.Phi)
+			if !ok {
+				break
+			}
+			if bt, isB := ph.Type().Underlying().(*types.Basic); isB && bt.Kind() == types.Bool {
+				return true
+			}
+			if isErrorType(ph.Type()) {
+				return true
+			}
+			if _, isP := ph.Type().Underlying().(*types.Pointer); isP {
+				return true
+			}
+		}
+		return false
+	}
+	first := true
+	push := func(pred *ssa.BasicBlock, forced int, joins []join) {
 		for i, s := range pred.Succs {
 			if forced >= 0 && len(pred.Succs) == 2 && i != forced {
 				continue
 			}
+			if first && only != nil && s != only {
+				continue
+			}
+			js := joins
+			if len(s.Preds) > 1 && hasBranchPhi(s) {
+				pidx := -1
+				for k, pr := range s.Preds {
+					if pr == pred {
+						if pidx >= 0 {
+							pidx = -2
+							break
+						}
+						pidx = k
+					}
+				}
+				var nj []join
+				for _, j := range joins {
+					if j.b != s {
+						nj = append(nj, j)
+					}
+				}
+				if pidx >= 0 {
+					nj = append(nj, join{s, pidx})
+				}
+				if len(nj) > 4 {
+					nj = nj[len(nj)-4:]
+				}
+				js = nj
+			}
 			f := -1
 			if k, ok := decidedSucc(pred, s); ok {
 				f = k
+			} else if k, ok := decidedByJoins(s, func(b *ssa.BasicBlock) (int, bool) {
+				for _, j := range js {
+					if j.b == b {
+						return j.pidx, true
+					}
+				}
+				return 0, false
+			}); ok {
+				f = k
 			}
-			stack = append(stack, st{s, f})
+			stack = append(stack, item{st{s, f, envKey(js)}, js})
 		}
 	}
-	push(from, -1)
+	push(from, -1, nil)
+	first = false
 	for len(stack) > 0 {
 		x := stack[len(stack)-1]
 		stack = stack[:len(stack)-1]
-		if seen[x] {
+		if seen[x.st] {
 			continue
 		}
-		seen[x] = true
+		seen[x.st] = true
 		if visit(x.b) {
-			push(x.b, x.forced)
+			push(x.b, x.forced, x.joins)
 		}
 	}
+}
+
+// decidedByJoins: block s branches on a phi defined in an EARLIER join block; entered lets the
+// search say through which predecessor that join was entered on the current path.
+func decidedByJoins(s *ssa.BasicBlock, entered func(*ssa.BasicBlock) (int, bool)) (int, bool) {
+	n := len(s.Instrs)
+	if n == 0 || len(s.Succs) != 2 {
+		return 0, false
+	}
+	iff, ok := s.Instrs[n-1].(*ssa.If)
+	if !ok {
+		return 0, false
+	}
+	v, pos := stripNot(iff.Cond, true)
+	l := Lit{V: v, Pos: true}
+	ph := subjectPhi(l)
+	if ph == nil || ph.Block() == s {
+		return 0, false
+	}
+	pidx, ok := entered(ph.Block())
+	if !ok || pidx >= len(ph.Edges) {
+		return 0, false
+	}
+	e := ph.Edges[pidx]
+	// literal true / false about ph given operand e
+	for k, lit := range []Lit{{V: v, Pos: true}, {V: v, Pos: false}} {
+		if feasible, decided := constLit(lit, ph, e); decided && feasible {
+			// lit holds: cond == (lit.Pos == pos ? true : false)
+			condTrue := (k == 0) == pos
+			if condTrue {
+				return 0, true
+			}
+			return 1, true
+		}
+	}
+	return 0, false
 }
